@@ -178,6 +178,9 @@ pub trait Obj {
         false
     }
     fn as_any(&self) -> &dyn core::any::Any;
+    /// move `src` (same concrete type) into this object's storage: the old value is dropped IN PLACE and the new
+    /// one lives at the very address the old one had (state keyed by an object's address must not survive that)
+    fn replace_with(&mut self, src: Box<dyn Obj>) -> bool;
     fn debug(&self) -> Option<DebugInfo> {
         None
     }
@@ -228,6 +231,16 @@ impl<BS: cipher::crypto_common::BlockSizes> cipher::StreamCipherClosure for MixK
             backend.gen_ks_block(&mut tail[0]);
         }
     }
+}
+
+fn replace_impl<T: Obj + 'static>(dst: &mut T, src: Box<dyn Obj>) -> bool {
+    if src.as_any().type_id() != core::any::TypeId::of::<T>() {
+        return false;
+    }
+    // same concrete type: the fat pointer's data pointer is a `*mut T`
+    let b: Box<T> = unsafe { Box::from_raw(Box::into_raw(src) as *mut T) };
+    *dst = *b;
+    true
 }
 
 fn image_after_drop<T>(v: T) -> Vec<u8> {
@@ -463,6 +476,9 @@ impl<M: EncMode + 'static> Obj for BlkEnc<M> {
     fn as_any(&self) -> &dyn core::any::Any {
         self
     }
+    fn replace_with(&mut self, src: Box<dyn Obj>) -> bool {
+        replace_impl(self, src)
+    }
     fn clone_from_obj(&mut self, src: &dyn Obj) -> bool {
         match src.as_any().downcast_ref::<Self>() {
             Some(s) => {
@@ -632,6 +648,9 @@ impl<M: DecMode + 'static> Obj for BlkDec<M> {
     }
     fn as_any(&self) -> &dyn core::any::Any {
         self
+    }
+    fn replace_with(&mut self, src: Box<dyn Obj>) -> bool {
+        replace_impl(self, src)
     }
     fn clone_from_obj(&mut self, src: &dyn Obj) -> bool {
         match src.as_any().downcast_ref::<Self>() {
@@ -901,6 +920,9 @@ where
     fn as_any(&self) -> &dyn core::any::Any {
         self
     }
+    fn replace_with(&mut self, src: Box<dyn Obj>) -> bool {
+        replace_impl(self, src)
+    }
     fn drop_image(self: Box<Self>) -> Vec<u8> {
         image_after_drop(self.0)
     }
@@ -996,6 +1018,9 @@ impl<K: CoreInfo + 'static> Obj for CoreObj<K> {
     }
     fn as_any(&self) -> &dyn core::any::Any {
         self
+    }
+    fn replace_with(&mut self, src: Box<dyn Obj>) -> bool {
+        replace_impl(self, src)
     }
     fn drop_image(self: Box<Self>) -> Vec<u8> {
         image_after_drop(self.0)
@@ -1137,6 +1162,9 @@ impl<C: Ciph> Obj for BufE<C> {
     fn as_any(&self) -> &dyn core::any::Any {
         self
     }
+    fn replace_with(&mut self, src: Box<dyn Obj>) -> bool {
+        replace_impl(self, src)
+    }
     fn clone_from_obj(&mut self, src: &dyn Obj) -> bool {
         match src.as_any().downcast_ref::<Self>() {
             Some(s) => {
@@ -1179,6 +1207,9 @@ impl<C: Ciph> Obj for BufD<C> {
     }
     fn as_any(&self) -> &dyn core::any::Any {
         self
+    }
+    fn replace_with(&mut self, src: Box<dyn Obj>) -> bool {
+        replace_impl(self, src)
     }
     fn clone_from_obj(&mut self, src: &dyn Obj) -> bool {
         match src.as_any().downcast_ref::<Self>() {
@@ -1255,6 +1286,9 @@ impl<T: cts::Encrypt + cts::Decrypt + Clone + 'static> Obj for CtsObj<T> {
     }
     fn as_any(&self) -> &dyn core::any::Any {
         self
+    }
+    fn replace_with(&mut self, src: Box<dyn Obj>) -> bool {
+        replace_impl(self, src)
     }
     fn clone_from_obj(&mut self, src: &dyn Obj) -> bool {
         match src.as_any().downcast_ref::<Self>() {
